@@ -37,7 +37,9 @@ def fresh(desc, base="v", run=None):
             kind = "bytes" if tag == "bytes" else "list"
             return ListV(None, n, arr, elem, kind)
         if tag == "rec":
-            return RecV(desc[1], {f: fresh(d, f"{base}.{f}", run) for f, d in desc[2].items()})
+            return RecV(desc[1], {f: fresh(d, f"{base}.{f}", run) for f, d in desc[2].items()}, desc)
+        if tag == "drop":
+            return Opaque(("dropped", base))
         if tag == "obj":
             o = Obj(None, {f: fresh(d, f"{base}.{f}", run) for f, d in desc[2].items()}, abstract=desc[1])
             return o
@@ -50,27 +52,67 @@ def fresh(desc, base="v", run=None):
     raise Unsupported(f"fresh: unknown desc {desc!r}")
 
 
-def fresh_arr(elem, base):
-    if isinstance(elem, tuple) and elem[0] == "rec":
-        out = {}
-        for f, d in elem[2].items():
-            if isinstance(d, tuple) and d[0] == "opt":
-                out[f + "?"] = z3.Array(fresh_name(f"{base}.{f}?"), z3.IntSort(), z3.BoolSort())
-                out[f] = z3.Array(fresh_name(f"{base}.{f}"), z3.IntSort(), sort_of(d[1]))
-            elif isinstance(d, tuple) and d[0] == "list":
-                # list-valued field: a 2-level array (index -> (len, Int -> elem))
-                out[f + "#len"] = z3.Array(fresh_name(f"{base}.{f}#len"), z3.IntSort(), z3.IntSort())
-                out[f] = z3.Array(fresh_name(f"{base}.{f}"), z3.IntSort(), z3.ArraySort(z3.IntSort(), _elem_sort(d[1])))
-                if isinstance(d[1], tuple) and d[1][0] == "rec":
-                    raise Unsupported("list of records inside record arrays")
+def _is(d, tag):
+    return isinstance(d, tuple) and d[0] == tag
+
+
+def _arr2(name, sort):
+    return z3.Array(fresh_name(name), z3.IntSort(), z3.ArraySort(z3.IntSort(), sort))
+
+
+def fresh_rec_arrays(fields, base, prefix=""):
+    """Struct-of-arrays for a list of records; nested records are flattened ("a.b"), Optional fields get a
+    presence array ("f?"), list-valued fields become arrays of arrays with a length array ("f#len")."""
+    out = {}
+    for f, d in fields.items():
+        key = prefix + f
+        if _is(d, "drop") or _is(d, "const"):
+            continue
+        if _is(d, "opt"):
+            out[key + "?"] = z3.Array(fresh_name(f"{base}.{key}?"), z3.IntSort(), z3.BoolSort())
+            out[key] = z3.Array(fresh_name(f"{base}.{key}"), z3.IntSort(), sort_of(d[1]))
+        elif _is(d, "list"):
+            out[key + "#len"] = z3.Array(fresh_name(f"{base}.{key}#len"), z3.IntSort(), z3.IntSort())
+            if _is(d[1], "rec"):
+                for f2, d2 in d[1][2].items():
+                    if _is(d2, "drop") or _is(d2, "const"):
+                        continue
+                    out[f"{key}[].{f2}"] = _arr2(f"{base}.{key}[].{f2}", sort_of(d2))
             else:
-                out[f] = z3.Array(fresh_name(f"{base}.{f}"), z3.IntSort(), sort_of(d))
-        return out
+                out[key] = _arr2(f"{base}.{key}", sort_of(d[1]))
+        elif _is(d, "rec"):
+            out.update(fresh_rec_arrays(d[2], base, key + "."))
+        else:
+            out[key] = z3.Array(fresh_name(f"{base}.{key}"), z3.IntSort(), sort_of(d))
+    return out
+
+
+def fresh_arr(elem, base):
+    if _is(elem, "rec"):
+        return fresh_rec_arrays(elem[2], base)
     return z3.Array(fresh_name(base + ".arr"), z3.IntSort(), sort_of(elem))
 
 
-def _elem_sort(d):
-    return sort_of(d)
+def const_rec_arrays(rec, elem):
+    """Arrays of a list whose every cell holds the same record value ([x] * n)."""
+    base = fresh_rec_arrays(elem[2], "rep")
+    return rec_store_all(base, rec, elem[2], "")
+
+
+def rec_store_all(arr, rec, fields, prefix):
+    out = dict(arr)
+    for f, d in fields.items():
+        key = prefix + f
+        if _is(d, "drop") or _is(d, "const"):
+            continue
+        v = rec.fields.get(f)
+        if _is(d, "rec"):
+            out = rec_store_all(out, v, d[2], key + ".")
+        elif _is(d, "opt") or _is(d, "list"):
+            raise Unsupported("repeat of records with optional/list fields")
+        else:
+            out[key] = z3.K(z3.IntSort(), zval(v))
+    return out
 
 
 def desc_of(v):
@@ -91,6 +133,8 @@ def desc_of(v):
             return ("list", desc_of(v.items[0]))
         return ("list", "int")
     if isinstance(v, RecV):
+        if v.desc is not None:
+            return v.desc
         return ("rec", v.cls, {f: desc_of(x) for f, x in v.fields.items()})
     if isinstance(v, OptV):
         return ("opt", desc_of(v.val))
@@ -115,7 +159,7 @@ def to_symbolic(l, elem=None):
     if isinstance(elem, tuple) and elem[0] == "rec":
         arr = fresh_arr(elem, "lit")
         for i, it in enumerate(l.items):
-            arr = rec_store(arr, i, it, elem)
+            arr = rec_store(arr, z3.IntVal(i), it, elem)
     else:
         arr = z3.K(z3.IntSort(), zval(_default(elem)))
         for i, it in enumerate(l.items):
@@ -130,38 +174,64 @@ def _default(elem):
     return {"int": 0, "byte": 0, "bool": False, "str": "", "real": 0.0}.get(elem, 0)
 
 
-def rec_store(arr, i, rec, elem):
+def rec_store(arr, i, rec, elem, prefix=""):
     out = dict(arr)
-    for f, d in elem[2].items():
-        v = rec.fields[f]
-        if isinstance(d, tuple) and d[0] == "opt":
+    fields = elem[2] if prefix == "" or isinstance(elem, tuple) else elem
+    for f, d in fields.items():
+        key = prefix + f
+        if _is(d, "drop") or _is(d, "const"):
+            continue
+        v = rec.fields.get(f) if isinstance(rec, RecV) else (rec.fields.get(f) if isinstance(rec, Obj) else None)
+        if _is(d, "opt"):
             if isinstance(v, OptV):
-                out[f + "?"] = z3.Store(out[f + "?"], i, zbool(v.isnone))
-                out[f] = z3.Store(out[f], i, zval(v.val))
+                out[key + "?"] = z3.Store(out[key + "?"], i, zbool(v.isnone))
+                out[key] = z3.Store(out[key], i, zval(v.val))
             elif v is None:
-                out[f + "?"] = z3.Store(out[f + "?"], i, z3.BoolVal(True))
+                out[key + "?"] = z3.Store(out[key + "?"], i, z3.BoolVal(True))
             else:
-                out[f + "?"] = z3.Store(out[f + "?"], i, z3.BoolVal(False))
-                out[f] = z3.Store(out[f], i, zval(v))
-        elif isinstance(d, tuple) and d[0] == "list":
+                out[key + "?"] = z3.Store(out[key + "?"], i, z3.BoolVal(False))
+                out[key] = z3.Store(out[key], i, zval(v))
+        elif _is(d, "list"):
             lv = to_symbolic(v.copy(), d[1]) if v.items is not None else v
-            out[f + "#len"] = z3.Store(out[f + "#len"], i, zint(lv.length))
-            out[f] = z3.Store(out[f], i, lv.arr)
+            out[key + "#len"] = z3.Store(out[key + "#len"], i, zint(lv.length))
+            if _is(d[1], "rec"):
+                for f2, d2 in d[1][2].items():
+                    if _is(d2, "drop") or _is(d2, "const"):
+                        continue
+                    out[f"{key}[].{f2}"] = z3.Store(out[f"{key}[].{f2}"], i, lv.arr[f2])
+            else:
+                out[key] = z3.Store(out[key], i, lv.arr)
+        elif _is(d, "rec"):
+            if not isinstance(v, (RecV, Obj)):
+                raise Unsupported(f"field {key}: expected a record value")
+            out = rec_store(out, i, v, d, key + ".")
         else:
-            out[f] = z3.Store(out[f], i, zval(v))
+            out[key] = z3.Store(out[key], i, zval(v))
     return out
 
 
-def rec_select(arr, i, elem):
+def rec_select(arr, i, elem, prefix=""):
     fields = {}
     for f, d in elem[2].items():
-        if isinstance(d, tuple) and d[0] == "opt":
-            fields[f] = OptV(z3.Select(arr[f + "?"], i), z3.Select(arr[f], i))
-        elif isinstance(d, tuple) and d[0] == "list":
-            fields[f] = ListV(None, z3.Select(arr[f + "#len"], i), z3.Select(arr[f], i), d[1])
+        key = prefix + f
+        if _is(d, "drop"):
+            fields[f] = Opaque(("dropped", key))
+        elif _is(d, "const"):
+            fields[f] = d[1]
+        elif _is(d, "opt"):
+            fields[f] = OptV(z3.Select(arr[key + "?"], i), z3.Select(arr[key], i))
+        elif _is(d, "list"):
+            if _is(d[1], "rec"):
+                sub = {f2: z3.Select(arr[f"{key}[].{f2}"], i) for f2, d2 in d[1][2].items()
+                       if not (_is(d2, "drop") or _is(d2, "const"))}
+                fields[f] = ListV(None, z3.Select(arr[key + "#len"], i), sub, d[1])
+            else:
+                fields[f] = ListV(None, z3.Select(arr[key + "#len"], i), z3.Select(arr[key], i), d[1])
+        elif _is(d, "rec"):
+            fields[f] = rec_select(arr, i, d, key + ".")
         else:
-            fields[f] = z3.Select(arr[f], i)
-    return RecV(elem[1], fields)
+            fields[f] = z3.Select(arr[key], i)
+    return RecV(elem[1], fields, elem)
 
 
 def list_get(l, i):
@@ -247,9 +317,7 @@ def list_repeat(l, n):
         x = l.items[0]
         if isinstance(x, RecV):
             elem = desc_of(x)
-            arr = {}
-            for f, d in elem[2].items():
-                arr[f] = z3.K(z3.IntSort(), zval(x.fields[f]))
+            arr = const_rec_arrays(x, elem)
             return ListV(None, z3.If(zint(n) >= 0, zint(n), 0) if is_z3(n) else max(n, 0), arr, elem, l.kind)
         elem = desc_of(x)
         ln = z3.If(zint(n) >= 0, zint(n), 0) if is_z3(n) else max(n, 0)
